@@ -10,7 +10,7 @@ Export ==
     phase = "done" =>
         LET I == IdealNow
         IN PrintT(<<"REPLAY", ToJson([family |-> Family, doc |-> FullDoc, rawdoc |-> doc, lim |-> lim0, str |-> StrMode, iv |-> InitVal,
-                                     dev |-> Deviations,
+                                     dev |-> Deviations, esc |-> ~AllNodesOK(doc),
                                      res |-> result, items |-> Proj(out),
                                      stale |-> ~NoStale(out),
                                      ideal |-> I.res, idealrc0 |-> Ideal(FullDoc, [Ctx EXCEPT !.rc = 0]).res, iitems |-> I.items, unr |-> I.unr,
